@@ -35,8 +35,10 @@
 ; backtick and newline, or doubled backticks
 (declare-fun qbody (Str Int Int) Bool)
 (assert (forall ((s Str) (a Int)) (! (qbody s a a) :pattern ((qbody s a a)))))
-(assert (forall ((s Str) (a Int) (b Int)) (! (=> (and (qbody s a b) (< b (Str.len s)) (not (= (runeAt s b) 96)) (not (= (runeAt s b) 10))) (qbody s a (+ b (runeWidth s b)))) :pattern ((qbody s a b) (runeWidth s b)))))
-(assert (forall ((s Str) (a Int) (b Int)) (! (=> (and (qbody s a b) (< (+ b 1) (Str.len s)) (= (Str.nth s b) 96) (= (Str.nth s (+ b 1)) 96)) (qbody s a (+ b 2))) :pattern ((qbody s a b) (qbody s a (+ b 2))))))
+; the rules are triggered on the premise term together with the conclusion term (which the goal mentions);
+; the arithmetic side conditions are left to the arithmetic solver
+(assert (forall ((s Str) (a Int) (b Int) (e Int)) (! (=> (and (qbody s a b) (< b (Str.len s)) (not (= (runeAt s b) 96)) (not (= (runeAt s b) 10)) (= e (+ b (runeWidth s b)))) (qbody s a e)) :pattern ((qbody s a b) (qbody s a e)))))
+(assert (forall ((s Str) (a Int) (b Int) (e Int)) (! (=> (and (qbody s a b) (< (+ b 1) (Str.len s)) (= (Str.nth s b) 96) (= (Str.nth s (+ b 1)) 96) (= e (+ b 2))) (qbody s a e)) :pattern ((qbody s a b) (qbody s a e)))))
 
 ; digit runs
 (define-fun-rec allDigits ((s Str) (a Int) (b Int)) Bool (forall ((i Int)) (=> (and (<= a i) (< i b)) (isDigitC (Str.nth s i)))))
@@ -56,18 +58,17 @@
 ; newline and backslash, or a backslash followed by any rune but newline
 (declare-fun sbody (Str Int Int Int) Bool)
 (assert (forall ((s Str) (q Int) (a Int)) (! (sbody s q a a) :pattern ((sbody s q a a)))))
-(assert (forall ((s Str) (q Int) (a Int) (b Int)) (! (=> (and (sbody s q a b) (< b (Str.len s)) (not (= (runeAt s b) q)) (not (= (runeAt s b) 10)) (not (= (runeAt s b) 92))) (sbody s q a (+ b (runeWidth s b)))) :pattern ((sbody s q a b) (runeWidth s b)))))
-(assert (forall ((s Str) (q Int) (a Int) (b Int)) (! (=> (and (sbody s q a b) (< (+ b 1) (Str.len s)) (= (runeAt s b) 92) (not (= (runeAt s (+ b 1)) 10))) (sbody s q a (+ (+ b 1) (runeWidth s (+ b 1))))) :pattern ((sbody s q a b) (runeWidth s (+ b 1))))))
+(assert (forall ((s Str) (q Int) (a Int) (b Int) (e Int)) (! (=> (and (sbody s q a b) (< b (Str.len s)) (not (= (runeAt s b) q)) (not (= (runeAt s b) 10)) (not (= (runeAt s b) 92)) (= e (+ b (runeWidth s b)))) (sbody s q a e)) :pattern ((sbody s q a b) (sbody s q a e)))))
+(assert (forall ((s Str) (q Int) (a Int) (b Int) (e Int)) (! (=> (and (sbody s q a b) (< (+ b 1) (Str.len s)) (= (runeAt s b) 92) (not (= (runeAt s (+ b 1)) 10)) (= e (+ (+ b 1) (runeWidth s (+ b 1))))) (sbody s q a e)) :pattern ((sbody s q a b) (sbody s q a e)))))
 
 ; gap(s,a,b): [a,b) holds only white space and // comments
 (declare-fun noNL (Str Int Int) Bool)
 (assert (forall ((s Str) (a Int)) (! (noNL s a a) :pattern ((noNL s a a)))))
-(assert (forall ((s Str) (a Int) (b Int)) (! (=> (and (noNL s a b) (< b (Str.len s)) (not (= (runeAt s b) 10))) (noNL s a (+ b (runeWidth s b)))) :pattern ((noNL s a b) (runeWidth s b)))))
+(assert (forall ((s Str) (a Int) (b Int) (e Int)) (! (=> (and (noNL s a b) (< b (Str.len s)) (not (= (runeAt s b) 10)) (= e (+ b (runeWidth s b)))) (noNL s a e)) :pattern ((noNL s a b) (noNL s a e)))))
 (declare-fun gap (Str Int Int) Bool)
 (assert (forall ((s Str) (a Int)) (! (gap s a a) :pattern ((gap s a a)))))
-(assert (forall ((s Str) (a Int) (b Int)) (! (=> (and (gap s a b) (< b (Str.len s)) (unicode.IsSpace (runeAt s b))) (gap s a (+ b (runeWidth s b)))) :pattern ((gap s a b) (runeWidth s b)))))
-(assert (forall ((s Str) (a Int) (b Int) (m Int)) (! (=> (and (gap s a b) (< (+ b 1) (Str.len s)) (= (Str.nth s b) 47) (= (Str.nth s (+ b 1)) 47) (noNL s (+ b 2) m) (= m (Str.len s))) (gap s a m)) :pattern ((gap s a b) (noNL s (+ b 2) m)))))
-(assert (forall ((s Str) (a Int) (b Int) (m Int)) (! (=> (and (gap s a b) (< (+ b 1) (Str.len s)) (= (Str.nth s b) 47) (= (Str.nth s (+ b 1)) 47) (noNL s (+ b 2) m) (< m (Str.len s)) (= (runeAt s m) 10)) (gap s a (+ m 1))) :pattern ((gap s a b) (noNL s (+ b 2) m)))))
+(assert (forall ((s Str) (a Int) (b Int) (e Int)) (! (=> (and (gap s a b) (< b (Str.len s)) (unicode.IsSpace (runeAt s b)) (= e (+ b (runeWidth s b)))) (gap s a e)) :pattern ((gap s a b) (gap s a e)))))
+(assert (forall ((s Str) (a Int) (b Int) (c Int) (m Int) (e Int)) (! (=> (and (gap s a b) (< (+ b 1) (Str.len s)) (= (Str.nth s b) 47) (= (Str.nth s (+ b 1)) 47) (= c (+ b 2)) (noNL s c m) (or (and (= m (Str.len s)) (= e m)) (and (< m (Str.len s)) (= (runeAt s m) 10) (= e (+ m 1))))) (gap s a e)) :pattern ((gap s a b) (noNL s c m) (gap s a e)))))
 
 ; number of '.' bytes in [a,b)
 (define-fun-rec ndots ((s Str) (a Int) (b Int)) Int
@@ -158,3 +159,9 @@
   (forall ((s Str) (a Int) (b Int) (c Int))
     (! (=> (and (allNumBytes s a b) (allNumBytes s b c)) (allNumBytes s a c))
        :pattern ((allNumBytes s a b) (allNumBytes s b c)))))
+(lemma ndots-peel
+  (forall ((s Str) (a Int) (b Int) (c Int))
+    (! (=> (and (= b (+ a 1)) (<= b c))
+           (and (= (ndots s a b) (ite (= (Str.nth s a) 46) 1 0))
+                (= (ndots s a c) (+ (ndots s a b) (ndots s b c)))))
+       :pattern ((ndots s a c) (ndots s b c)))))
